@@ -200,7 +200,7 @@ class Frame:
 class VG:
     """Evaluator. One instance per top-level analysed function."""
 
-    def __init__(self, facts, view, max_inline_depth=6):
+    def __init__(self, facts, view, max_inline_depth=6, use_modes=True):
         self.F = facts
         self.view = view
         self.fields = {}      # field path -> term (current value)
@@ -221,6 +221,8 @@ class VG:
         # concrete type knowledge per field-path prefix: adt path and generic-parameter bindings
         self.prefix_adt = {'': view.adt_path if view is not None else None}
         self.prefix_bind = {'': {}}
+        # mode selectors: fields every constructor sets to the same unit enum variant and update() never writes
+        self.const_fields = mode_fields(facts, view) if (view is not None and use_modes) else {}
 
     # ------------------------------------------------------------------ helpers
     def event(self, kind, data, node):
@@ -236,6 +238,8 @@ class VG:
             if comps and [k[len(path) + 1:] for k in comps] == [str(i) for i in range(len(comps))]:
                 # a tuple-typed field whose components have been written individually: the whole is their tuple
                 return ('tuple', tuple(self.fields[k] for k in comps))
+            if path in self.const_fields:
+                return self.const_fields[path]
             self.fields[path] = ('in', path)
         return self.fields[path]
 
@@ -353,6 +357,11 @@ class VG:
             self.write_place(p[1], ('set_back', self.read_place(p[1]), t), node)
         elif k == 'front':
             self.write_place(p[1], ('set_front', self.read_place(p[1]), t), node)
+        elif k == 'self' and isinstance(t, tuple) and t and t[0] == 'struct' and isinstance(t[2], dict):
+            # `*self = Self { .. }` inside a method of a (nested) struct: every field of it is written
+            flat = flatten_struct(self.F, t, p[1])
+            for path_, x_ in flat.items():
+                self.set_field(path_, x_, node)
         else:
             self.note_unknown('write-to-%s' % k, node)
 
@@ -482,6 +491,12 @@ class VG:
             if name.startswith('std::cmp::Ordering::') and isinstance(v, tuple) and v[0] == 'op' and v[1] == 'partial_cmp':
                 a, b = v[2]
                 return op({'Greater': 'gt', 'Less': 'lt', 'Equal': 'eq'}[name.split('::')[-1]], a, b)
+            if isinstance(v, tuple) and v and v[0] == 'const':
+                # the scrutinee is a known unit variant (a mode selector fixed by the constructors)
+                if v[1] == name:
+                    return TRUE
+                if v[1].rsplit('::', 1)[0] == name.rsplit('::', 1)[0]:
+                    return FALSE
             return op('eq', v, ('const', name))
         return unk('pattern-cond')
 
@@ -622,6 +637,12 @@ class VG:
             return ('const', name)
         if name == 'std::cmp::Ordering::Equal':
             return ('const', name)
+        if short in FLOAT_CONSTS and name.startswith(('num::', 'num_traits::')) and name.split('::')[-2] in ('Zero', 'One', 'Float', 'identities'):
+            # `T::zero` / `T::one` passed as a function value (`unwrap_or_else(T::zero)`): the closure `|| 0.0` / `|| 1.0`
+            node = {'k': 'closure', 'params': [], 'body': {'k': 'lit', 'lit': 'float', 'v': str(FLOAT_CONSTS[short]), 'ty': e.get('ty', ''), 'sp': e.get('sp')}, 'sp': e.get('sp')}
+            return ('closure', id(e), node)
+        if e.get('defkind') == 'Ctor(Variant, Const)' and e.get('callee', {}).get('krate') == self.F.raw['crate']:
+            return ('const', name)      # a unit variant of an enum of this crate
         return ('fnref', name)
 
     def v_field(self, e, fr):
@@ -1434,6 +1455,13 @@ class VG:
                     prefix = rp[1]
                 elif rp[0] == 'field':
                     prefix = rp[1] + '.'
+                    if prefix not in self.prefix_adt:
+                        # a method of a nested private struct: remember its concrete type so that inner views it owns resolve
+                        oty = self.child_type(fr.prefix, rp[1])
+                        if oty is not None and oty.get('adt') in self.F.adts:
+                            self.prefix_adt[prefix] = oty['adt']
+                            gens = self.F.adts[oty['adt']]['generics']
+                            self.prefix_bind[prefix] = dict(zip(gens, oty.get('args', [])))
                 else:
                     return self.note_unknown('inline-receiver', e)
             argv = [self.value_noderef(a, fr) for a in args[1:]]
@@ -2070,8 +2098,23 @@ class VG:
                 elif short == 'product':
                     init, nxt = lit(1.0), op('mul', mu, self.deref(item))
                 elif short == 'fold' and len(argv) == 3 and isinstance(argv[2], tuple) and argv[2][0] == 'closure':
-                    init = d(argv[1]) if not (isinstance(argv[1], tuple) and argv[1] and argv[1][0] == 'tuple') else argv[1]
-                    if isinstance(init, tuple) and init and init[0] == 'tuple':
+                    init = d(argv[1]) if not (isinstance(argv[1], tuple) and argv[1] and argv[1][0] in ('tuple', 'struct')) else argv[1]
+                    if isinstance(init, tuple) and init and init[0] == 'struct' and isinstance(init[2], dict) and init[2]:
+                        # struct accumulator: one carried variable per field (scalar replacement), as for tuples
+                        names = list(init[2])
+                        keys = [('local', 'acc%d_%s' % (self.nloops, f_)) for f_ in names]
+                        mus = ('struct', init[1], {f_: ('mu', L, k_) for f_, k_ in zip(names, keys)})
+                        nx = self.apply_closure(argv[2], [mus, item], fr)
+                        if isinstance(nx, tuple) and nx and nx[0] == 'struct' and isinstance(nx[2], dict) and list(nx[2]) and set(nx[2]) == set(names):
+                            self.loop_stack.pop()
+                            self.pc = saved_pc
+                            close_captured()
+                            for f_, k_ in zip(names, keys):
+                                info['carried'][k_] = (d(init[2][f_]), d(nx[2][f_]))
+                            return ('struct', init[1], {f_: ('fold', L, k_, d(init[2][f_]), d(nx[2][f_])) for f_, k_ in zip(names, keys)})
+                        ok = False
+                        nxt = unk('iter-fold-struct')
+                    elif isinstance(init, tuple) and init and init[0] == 'tuple':
                         # tuple accumulator: one carried variable per component (scalar replacement)
                         keys = [('local', 'acc%d_%d' % (self.nloops, i)) for i in range(len(init[1]))]
                         mus = ('tuple', tuple(('mu', L, k_) for k_ in keys))
@@ -2396,6 +2439,62 @@ def exits_value(exits, getter):
         c = conj(list(ex.pc))
         acc = phi(c, getter(ex), acc)
     return acc
+
+
+def flatten_struct(F, ret, prefix=''):
+    """Flatten a ('struct', name, {f: term}) value (with nested local structs) to field paths; None if not a struct."""
+    out = {}
+    if not isinstance(ret, tuple) or not ret or ret[0] != 'struct':
+        return None
+    local = {v.adt_path for v in F.views} | {'Self'} | set(F.adts)
+    for k, t in ret[2].items():
+        if isinstance(t, tuple) and t and t[0] == 'struct' and t[1] in local:
+            sub = flatten_struct(F, t, prefix + k + '.')
+            if sub:
+                out.update(sub)
+                continue
+        out[prefix + k] = t
+    return out
+
+
+_mode_cache = {}
+
+
+def mode_fields(F, view):
+    """{field path: ('const', variant)} for the fields of `view` (nested private structs included) that every constructor
+    sets to the same unit enum variant and that update() never writes: the view is a specialisation of shared code, and
+    reading such a field gives that variant."""
+    key = (id(F), view.name)
+    if key in _mode_cache:
+        return _mode_cache[key]
+    _mode_cache[key] = {}
+    cand = None
+    for c in view.ctors:
+        vg = VG(F, view, use_modes=False)
+        try:
+            exits = vg.run(c, '')
+        except Exception:
+            exits = []
+        if not exits:
+            continue
+        ret = exits_value(exits, lambda ex: ex.ret)
+        init = flatten_struct(F, ret)
+        if init is None:
+            cand = {}
+            break
+        consts = {k: t for k, t in init.items() if isinstance(t, tuple) and t and t[0] == 'const'}
+        cand = consts if cand is None else {k: t for k, t in cand.items() if consts.get(k) == t}
+    cand = cand or {}
+    if cand and view.update is not None:
+        vg = VG(F, view, use_modes=False)
+        try:
+            vg.run(view.update, '')
+            written = {w[0] for w in vg.writes}
+        except Exception:
+            written = set(cand)
+        cand = {k: t for k, t in cand.items() if not any(w == k or k.startswith(w + '.') or w.startswith(k + '.') for w in written)}
+    _mode_cache[key] = cand
+    return cand
 
 
 def analyse_fn(facts, view, fn, args=None, self_fields=None):
